@@ -3,6 +3,7 @@ package props
 import (
 	"encoding/base64"
 	"fmt"
+	"strings"
 
 	"github.com/btcsuite/btcutil/base58"
 	sdk "github.com/cosmos/cosmos-sdk/types"
@@ -225,7 +226,7 @@ func (g *G) genDidMsg() (sdk.Msg, string) {
 		note := "did-create"
 		if g.chance("mismatch", g.bias("did-mismatch", 4)) {
 			// the DID field is chosen independently of the document (and of the signed payload)
-			target = pick(g, "other-did", pool)
+			target = g.otherDID(did, pool)
 			if target != did {
 				note = "did-create-mismatch"
 			}
@@ -266,7 +267,7 @@ func (g *G) genDidMsg() (sdk.Msg, string) {
 	docDID := did
 	note := "did-update"
 	if g.chance("mismatch", g.bias("did-mismatch", 4)) {
-		docDID = pick(g, "other-did", pool)
+		docDID = g.otherDID(did, pool)
 		if docDID != did {
 			note = "did-update-mismatch"
 		}
@@ -362,6 +363,24 @@ func (g *G) proof(against *didtypes.DIDDocument, authKeys []int, content []byte,
 		return id, sig, "right"
 	}
 	return vmID(did, 0, false), sign(g.intn("stranger", 6), content, seq), "unlisted-or-rotated-out-key"
+}
+
+// otherDID draws an identifier different from did: an unrelated pool DID, or a valid DID that
+// is textually related to it (a strict prefix of it, or an extension of it).
+func (g *G) otherDID(did string, pool []string) string {
+	const p = "did:panacea:"
+	body := strings.TrimPrefix(did, p)
+	switch g.weighted("other-did-kind", "pool", 5, "truncated", 3, "extended", 2) {
+	case "truncated":
+		if len(body) > 32 {
+			return p + body[:32+g.intn("cut", len(body)-32)]
+		}
+	case "extended":
+		if len(body) < 44 {
+			return did + strings.Repeat("z", 1+g.intn("ext", 44-len(body)))
+		}
+	}
+	return pick(g, "other-did", pool)
 }
 
 func (g *G) genDidTx() *world.TxStep {
